@@ -13,8 +13,10 @@ EXTENDS Integers, Sequences, FiniteSets, TLC
 CONSTANTS D,              \* the period / timeout
           Gaps,           \* grid of gaps between source events (never equal to D: "no two events exactly simultaneous")
           MaxEvents,      \* source scripts have 1..MaxEvents events
-          CancelOnEnd     \* TRUE = the code after fix 66f9ce9
-Kinds == {"n", "c", "u"}  \* item, complete, unsubscribe (by the subscriber's thread)
+          CancelOnEnd,    \* TRUE = the code after fix 66f9ce9 (the armed timer is cancelled when the subscription ends)
+          ArmAfterEnd     \* FALSE = the code after the second timeout fix: no timer is armed for an item during whose delivery the
+                          \* downstream ended the stream (take(n), first, an unsubscribe from the callback)
+Kinds == {"n", "c", "u", "l"}  \* item, complete, unsubscribe (by the subscriber's thread), last item (the downstream completes while it is delivered)
 ScriptSpace == UNION { [1..n -> Gaps \X Kinds] : n \in 1..MaxEvents }
 
 VARIABLES script, ip, now, srcWake,     \* the driving thread: next event at srcWake
@@ -37,6 +39,11 @@ SrcStep ==
         THEN /\ out' = Append(out, <<now, "n">>)
              /\ timers' = Cancel(timers) \cup {[id |-> nextId, wake |-> now + D, live |-> TRUE]}      \* cancel the old timer, arm a new one
              /\ nextId' = nextId + 1 /\ UNCHANGED <<subscribed, ended>>
+        ELSE IF k = "l" /\ subscribed          \* the previous timer is cancelled, the item is handed on, the downstream ends the stream
+        THEN /\ out' = Append(Append(out, <<now, "n">>), <<now, "c">>)
+             /\ End(now)
+             /\ timers' = Cancel(timers) \cup (IF ArmAfterEnd THEN {[id |-> nextId, wake |-> now + D, live |-> TRUE]} ELSE {})
+             /\ nextId' = nextId + 1
         ELSE IF k \in {"c", "u"} /\ subscribed
         THEN /\ out' = IF k = "c" THEN Append(out, <<now, "c">>) ELSE out
              /\ End(now)
